@@ -30,7 +30,9 @@ CONSTANTS Series, Times, Versions,   \* small sets of naturals
           RowTags,                   \* [id -> [a, b, arr]]  (defined in the MC module)
           TagsBySeries,              \* TRUE: the queried tags are a function of the series (measure: indexed tags are
                                      \* series-level attributes by documented contract); FALSE: of the row
-          Queries                    \* set of query records  (defined in the MC module)
+          Queries,                   \* set of query records  (defined in the MC module)
+          Script                     \* <<>> = any order of operations; otherwise step i must be of kind Script[i]
+                                     \* (exhaustive enumeration of one scenario shape, e.g. write, write, flush, merge)
 
 VARIABLES acked,    \* set of rows [id, s, t, v, batch]
           parts,    \* set of [pid, mem, rows]  (rows = set of ids that the part stores)
@@ -59,6 +61,7 @@ Init == /\ acked = {} /\ view = {} /\ parts = {} /\ nextId = 1 /\ nextPart = 1 /
         /\ last = [op |-> "init"] /\ ops = 0
 
 Step == ops < MaxOps /\ ops' = ops + 1
+Allowed(kind) == Script = <<>> \/ (ops + 1 <= Len(Script) /\ Script[ops + 1] = kind)
 
 \* ---- writes ------------------------------------------------------------
 \* a batch is a non-empty sequence of (series, ts, version) triples; row ids are assigned in order
@@ -66,7 +69,7 @@ Triples == [s : Series, t : Times, v : Versions]
 Batches == UNION { [1..n -> Triples] : n \in 1..MaxRows }
 
 Write(b) ==
-  /\ Step
+  /\ Step /\ Allowed("write")
   /\ nextId + Len(b) - 1 <= MaxTotal
   /\ (~Versioned) => \A i \in 1..Len(b) : b[i].v = CHOOSE x \in Versions : \A y \in Versions : x <= y
   /\ LET rs == { [id |-> nextId + i - 1, s |-> b[i].s, t |-> b[i].t, v |-> b[i].v, batch |-> nbatch + 1] : i \in 1..Len(b) }
@@ -81,13 +84,13 @@ MemParts == { p \in parts : p.mem }
 FileParts == { p \in parts : ~p.mem }
 
 Flush ==                 \* the flusher persists every memory part of the snapshot it looked at
-  /\ Step /\ MemParts # {}
+  /\ Step /\ Allowed("flush") /\ MemParts # {}
   /\ parts' = { [p EXCEPT !.mem = FALSE] : p \in parts }
   /\ last' = [op |-> "flush", flushed |-> { p.pid : p \in MemParts }]
   /\ UNCHANGED <<acked, view, nextId, nextPart, nbatch>>
 
 Merge(S) ==              \* any subset of the file parts, any fan-in
-  /\ Step /\ S \subseteq FileParts /\ Cardinality(S) >= 2
+  /\ Step /\ Allowed("merge") /\ S \subseteq FileParts /\ Cardinality(S) >= 2
   /\ LET ids == UNION { p.rows : p \in S }
          kept == { r.id : r \in KeepIn({ Row(i) : i \in ids }) }
      IN parts' = (parts \ S) \cup { [pid |-> nextPart, mem |-> FALSE, rows |-> kept] }
@@ -139,12 +142,12 @@ Answer(q) == [q |-> q, groups |-> Selected(q), ambiguous |-> Ambiguous(q),
               wkeys |-> IF q.order = "none" THEN <<>> ELSE Window(SortedKeys(q), q.offset, q.limit)]
 
 DoQuery(q) ==
-  /\ Step /\ acked # {}
+  /\ Step /\ Allowed("query") /\ acked # {}
   /\ last' = [op |-> "query"] @@ Answer(q)
   /\ UNCHANGED <<acked, view, parts, nextId, nextPart, nbatch>>
 
 QueryAll ==              \* every query of the family against the same layout
-  /\ Step /\ acked # {} /\ Queries # {} /\ last.op # "queryall"
+  /\ Step /\ Allowed("queryall") /\ acked # {} /\ Queries # {} /\ last.op # "queryall"
   /\ last' = [op |-> "queryall", res |-> { Answer(q) : q \in Queries }]
   /\ UNCHANGED <<acked, view, parts, nextId, nextPart, nbatch>>
 
